@@ -142,6 +142,53 @@ def is_element(body, e, clos, param):
     return x[0] == "call" and x[1] is not None and x[1]["path"].endswith("::next")
 
 
+def empty_shortcuts(b, roles, cs, name, init_sites):
+    """Edges (switch block, target) taken only when the evaluated collection is empty and under which
+    the function returns exactly what iterating over nothing returns: an empty array (map, filter),
+    the evaluated initial value (reduce).  Such an early return is not a bypass of the iteration."""
+    out = set()
+
+    def from_coll(e):
+        return expr_mentions(e, lambda x: x[0] == "call" and x[1] and x[1].get("key") == roles.parsed_evaluate and x[3] == cs.bi)
+
+    init_bis = {s.bi for s, _ in init_sites}
+    for sb in sorted(b.reachable()):
+        tt = b.blocks[sb]["term"]
+        if tt["k"] != "SwitchInt" or tt.get("dty") != "bool":
+            continue
+        e = strip_refs(b.trace(tt["discr"]))
+        truth, subj = None, None
+        if e[0] == "call" and e[1] and e[1]["path"].endswith("::is_empty"):
+            truth, subj = True, e[2][0]
+        elif e[0] == "binop" and e[1] in ("Eq", "Ne"):
+            x, y = strip_refs(e[2]), strip_refs(e[3])
+            for pp, qq in ((x, y), (y, x)):
+                if pp[0] == "call" and pp[1] and pp[1]["path"].endswith("::len") and qq[0] == "const" and const_value(qq[1]) == 0:
+                    truth, subj = (e[1] == "Eq"), pp[2][0]
+        if truth is None or not from_coll(subj):
+            continue
+        tg, other = bool_edge(b, sb, truth), bool_edge(b, sb, not truth)
+        if tg == other:
+            continue
+        only = (b.reachable(tg) - b.reachable(other)) | {tg}
+        ancestors = {n for n in b.reachable() if sb in b.reachable(n)} - only
+        with b.restricted(only | ancestors):
+            r = strip_refs(b.trace(0))
+        if not (r[0] == "agg" and r[1].get("variant") == "Ok" and r[2]):
+            continue
+        v = strip_refs(r[2][0])
+        if name in ("map", "filter"):
+            good = v[0] == "agg" and v[1].get("variant") == "Array" and strip_refs(v[2][0])[0] == "call" and re.search(r"Vec::<T>::new$", strip_refs(v[2][0])[1]["path"]) is not None
+        else:
+            x = v
+            while x[0] == "call" and x[1] and (x[1].get("key") == roles.conv.key or roles.conv.key in {y.get("key") for y in x[1].get("fwd") or []}):
+                x = strip_payload(x[2][0])
+            good = x[0] == "call" and x[1] and x[1].get("key") == roles.parsed_evaluate and x[3] in init_bis
+        if good:
+            out.add((sb, tg))
+    return out
+
+
 EXPECT = {"Array": "ITER(elements)", "Null": "ITER(empty)"}
 
 
@@ -174,6 +221,9 @@ def run(ctx):
             if len(pes) != 1:
                 continue
             ps, ps2 = pes[0]
+            stray = [s for s in u.calls_to(roles.parsed_evaluate) if "RULE#1" in (p.s2.get((s.body.key, s.bi)).extra["receiver"] if p.s2.get((s.body.key, s.bi)) else ()) and not u.per_element(s)]
+            ctx.check(not stray, "K2.expression-only-per-element", "%s evaluates the expression only inside the iteration (%s)" % (name, cfg),
+                      "%s also evaluates the expression outside the iteration (%s): its value for one element (or for other data) stands in for others" % (name, ", ".join(x.where() for x in stray)), where=b.where(), fn=b.key, nontrivial=True)
             # parses: one per operand, outside the per-element code
             parses = [s for s in u.calls(lambda c: c.get("key") in roles.sinks)]
             n_ops = 3 if name == "reduce" else 2
@@ -228,6 +278,27 @@ def run(ctx):
                 ctx.check(got == want, "K1.collection", "%s: %s(%s) → %s (%s)" % (name, ev, v, want, cfg),
                           "%s treats a collection that evaluates to %s (%s) as %s; expected %s" % (name, v, ev, got, want), where=b.where(), fn=b.key, nontrivial=True,
                           sample={"operator": name, "evaluated": ev, "kind": v, "outcome": got} if v in ("Array", "Null", "String") and ev == "New" else None)
+            # ---- K4 every successful result comes out of the iteration
+            shortcuts = empty_shortcuts(b, roles, cs, name, find_collection_eval(roles, p, u, 2) if name == "reduce" else [])
+            seen, st = set(), [0]
+            while st:
+                n = st.pop()
+                if n in seen or n == abi:
+                    continue
+                seen.add(n)
+                st.extend(x for x in b.succs(n) if (n, x) not in shortcuts)
+            rets = [n for n in seen if b.blocks[n]["term"]["k"] == "Return"]
+            bypass = []
+            if rets:
+                with b.restricted(seen):
+                    r = strip_refs(b.trace(0))
+                cands = [strip_refs(x) for x in r[2]] if r[0] == "phi" else [r]
+                for c in cands:
+                    is_err = (c[0] == "agg" and c[1].get("variant") == "Err") or (c[0] == "call" and c[1] and "from_residual" in c[1]["path"])
+                    if not is_err:
+                        bypass.append(show_expr(c)[:100])
+            ctx.check(not bypass, "K4.result-through-iteration", "%s: every path that bypasses the iteration returns an error (%s)" % (name, cfg),
+                      "%s can return %s without iterating over the collection" % (name, bypass), where=b.where(), fn=b.key, nontrivial=True)
             # ---- K4 shape
             bad_ad = [callee_path(s.term) for s in u.calls_path(REORDER.pattern)]
             ctx.check(not bad_ad, "K4.no-reorder", "%s uses no filtering/reordering/truncating adaptor (%s)" % (name, cfg), "%s applies %s to the collection or its results" % (name, bad_ad), where=b.where(), fn=b.key, nontrivial=True)
